@@ -185,7 +185,14 @@ def run(res):
     iops, iinfo = inst_ops(g, rng, res.tier)
     ops = nops + iops
     info = ninfo + iinfo
+    if len(nops) < 1000 or len(iops) < 1000:
+        res.violation("the generators produced almost nothing (%d name ops, %d instruction ops): an empty run is not a pass" % (len(nops), len(iops)),
+                      {"name_ops": len(nops), "inst_ops": len(iops)}, found_input=False, key="empty")
+        return
     impl, rc, err = vlib.run_lines([str(h)], ops)
+    if rc == -9:
+        res.violation("harness timeout on %d ops" % len(ops), {"ops": ops[:3]}, found_input=False, key="timeout")
+        return
     aborts = 0
     while rc != 0:
         # a sanitizer abort is a violation with a concrete input; the op is set aside so that the rest is still judged
@@ -246,7 +253,7 @@ def run(res):
                 w = ops[k].split()
                 noops = all(x == "n" for x in w[5:])
                 key = "agree:%s:%s" % (cls, e0) + (":no-operands" if noops and int(w[2]) not in operandless else "")
-                if e0 == "InvalidInstruction" and not key.endswith(":no-operands"):
+                if not key.endswith(":no-operands"):
                     # database forms: one key per instruction (exact); near-miss mutations: one key per mutated part
                     key += ":" + (id2name.get(int(w[2]), "?") if inf[1] == "form" else "mut-" + group_of(inf[1]))
             else:
@@ -303,19 +310,19 @@ def run(res):
         k = ks[0]
         res.violation("%s: %s -> %s (monitor %s; %d such inputs)" % (key, ops[k], impl[k], mon[mon_idx.index(k)], len(ks)),
                       {"ops": [ops[k]], "impl": impl[k], "info": list(map(str, info[k])), "more": [ops[j] for j in ks[1:6]]}, True, key=key)
-    if not bad:
-        if diffs:
-            k = diffs[0]
-            res.violation("correspondence model/implementation differs at %r: impl=%s model=%s (%d differing ops); the property predicate "
-                          "holds on every explored input" % (ops[k], impl[k], model[k], len(diffs)),
-                          {"ops": [ops[k]], "impl": impl[k], "model": model[k],
-                           "unchecked": "correspondence Model/InstName.lean, Model/X86Validate.lean ~ instdb.cpp, x86instapi.cpp"}, False, key="corr")
-        elif broken:
-            res.violation("proof obligation no longer checks: " + " | ".join(broken)[:1500], {"unchecked": broken}, False, key="obligation")
-    elif diffs:
-        res.notes.append("correspondence also differs on %d ops, first: %s impl=%s model=%s" % (len(diffs), ops[diffs[0]], impl[diffs[0]], model[diffs[0]]))
-    if broken and bad:
-        res.notes.append("obligations that no longer check: " + " | ".join(broken)[:800])
+    # a correspondence difference is reported unless a violation that is NOT an open known finding already explains the same op;
+    # a broken obligation is always reported
+    known_keys = {e.get("key") for e in vlib.load_known_findings(PID) if e.get("status") == "open"}
+    explained = {k for key, ks in bad.items() if key not in known_keys for k in ks}
+    unexplained = [k for k in diffs if k not in explained]
+    if unexplained:
+        k = unexplained[0]
+        res.violation("correspondence model/implementation differs at %r: impl=%s model=%s (%d differing ops not explained by a reported "
+                      "violation)" % (ops[k], impl[k], model[k], len(unexplained)),
+                      {"ops": [ops[k]], "impl": impl[k], "model": model[k], "more": [ops[j] for j in unexplained[1:6]],
+                       "unchecked": "correspondence Model/InstName.lean, Model/X86Validate.lean ~ instdb.cpp, x86instapi.cpp"}, False, key="corr")
+    if broken:
+        res.violation("proof obligation no longer checks: " + " | ".join(broken)[:1500], {"unchecked": broken}, False, key="obligation")
 
 
 def replay(data):
